@@ -501,9 +501,16 @@ def mk_node_fuse(N, styles, fixed=None):
             new[key] = fused
             new[KEYS[out]] = Alias(KEYS[out], key)
         # "the internal tasks are no longer accessible from the outside": inner nodes nobody outside the selection refers to are dropped
-        dependents = dependents_of(nodes)
+        # (kept: the output, every unselected node, and whatever those still need through their own, unfused, definitions)
+        keep = {j for j in range(len(nodes)) if j not in sel}
+        work = list(keep)
+        while work:
+            for i in nodes[work.pop()][1]:
+                if i not in keep:
+                    keep.add(i)
+                    work.append(i)
         for j in sel:
-            if j != out and dependents[j] <= set(sel):
+            if j != out and j not in keep:
                 del new[KEYS[j]]
         return new, outs, [j for j in range(len(nodes)) if KEYS[j] in new]
 
